@@ -13,18 +13,25 @@ Record posting_spans := {
 Definition is_account_stop (c : N) : bool := (c =? 10) || (c =? 13) || (c =? 59) || (c =? 32) || (c =? 9).
 Definition is_account_term (c : N) : bool := (c =? 9) || (c =? 59) || (c =? 13) || (c =? 10).
 
+(* str::trim_start_matches(' '): only the ASCII space the first opt(" ") may have taken *)
+Fixpoint trim_start_spaces (s : list N) : list N :=
+  match s with
+  | 32 :: r => trim_start_spaces r
+  | _ => s
+  end.
+
 Definition posting_account (fuel : nat) : parser (list N * rspan) :=
   terminated
     (with_span
        (try_map
-          (pmap trim_start
+          (pmap trim_start_spaces
              (taken (repeat_till1 fuel
                        (opt (literal [32]) ;;; take_till1 is_account_stop)
                        (peek (alt (void (literal [32; 32]))
                                   (alt (void (taken (opt (literal [32]) ;;; one_of is_account_term)))
                                        eof))))))
-          (* .verify(!is_empty): trim_start also strips U+000B, U+3000, ... *)
-          (fun x => match x with [] => None | _ => Some x end)))
+          (* .verify(!x.trim().is_empty()): a name made only of white space is rejected *)
+          (fun x => match trim x with [] => None | _ => Some x end)))
     space0.
 
 Definition lot_amount (fuel : nat) : parser s_exchange :=
